@@ -131,6 +131,73 @@ theorem outside_never_served (fs : FS) (root : Loc) (url : Url) (l : Loc)
         exact hout hpre
     · cases h
 
+/-! ## the only panic of the handler -/
+
+theorem openRead_panic {fs : FS} {q : Segs} (h : openRead fs q = some .panic) :
+    ∃ l, resolve fs [] q = some l ∧ fs.node l = some .dir := by
+  unfold openRead at h
+  split at h
+  · cases h
+  · rename_i l hl
+    split at h
+    · cases h
+    · rename_i hn; exact ⟨l, hl, hn⟩
+    · cases h
+
+theorem openChain_panic {fs : FS} {p : Segs} (h : openChain fs p = .panic) :
+    openRead fs p = some .panic ∨
+    (openRead fs p = none ∧ (openRead fs (appendExt p sBr) = some .panic ∨
+                             openRead fs (appendExt p sGz) = some .panic)) := by
+  unfold openChain at h
+  split at h
+  · rename_i r hr; subst h; left; exact hr
+  · rename_i h0
+    right; refine ⟨h0, ?_⟩
+    split at h
+    · rename_i r hr; subst h; left; exact hr
+    · split at h
+      · rename_i r hr; subst h; right; exact hr
+      · cases h
+
+/-- The handler task panics (connection closed without a response) only when one of the three
+    `File::open` candidates is a *directory* – e.g. a directory named `index.html` – and that
+    directory lies inside the root (or is the root): nothing outside is touched. -/
+theorem folder_panic_inside (fs : FS) (root : Loc) (url : Url)
+    (hn : RootNames root) (hr : RootOk fs root) (h : folderGet fs root url = .panic) :
+    ∃ l, root <+: l ∧ fs.node l = some .dir := by
+  unfold folderGet at h
+  split at h
+  · cases h
+  · rename_i hp
+    have hp' : hasParent (joinRel root url.tail) = false := by simpa using hp
+    have hp1 := withIndex_hasParent fs _ hp'
+    unfold guardedOpen at h
+    split at h
+    · rename_i hlex
+      have hpre := lex_prefix hn hp1 hlex
+      have key : ∀ q, hasParent q = false → root <+: names q → openRead fs q = some .panic →
+          ∃ l, root <+: l ∧ fs.node l = some .dir := by
+        intro q hq hqp ho
+        obtain ⟨l, hl, hnode⟩ := openRead_panic ho
+        have := resolve_noParent fs q [] l hq hl
+        rw [List.nil_append] at this
+        exact ⟨l, this ▸ hqp, hnode⟩
+      rcases openChain_panic h with h1 | ⟨h0, h1 | h1⟩
+      · exact key _ hp1 hpre h1
+      · by_cases hne : names (withIndex fs (joinRel root url.tail)) = root
+        · exact ⟨root, List.prefix_refl _, hr root (List.prefix_refl _)⟩
+        · exact key _ (appendExt_hasParent _ sBr (by decide) hp1)
+            (appendExt_prefix _ sBr root (by decide) hp1 hpre hne) h1
+      · by_cases hne : names (withIndex fs (joinRel root url.tail)) = root
+        · exact ⟨root, List.prefix_refl _, hr root (List.prefix_refl _)⟩
+        · exact key _ (appendExt_hasParent _ sGz (by decide) hp1)
+            (appendExt_prefix _ sGz root (by decide) hp1 hpre hne) h1
+    · cases h
+
+/-- the observed instance: `GET /weird` with a directory `weird/index.html` -/
+example : serveStatic [([], .dir), ([['r']], .dir), ([['r'], ['w']], .dir), ([['r'], ['w'], sIndex], .dir)]
+    [⟨mkPrefix [], .folder [['r']]⟩] ['/', 'w'] = .panic := by decide
+
 /-! ## percent-encoded segments are ordinary names -/
 
 /-- a segment containing `%` (the server never decodes escapes) is an ordinary name: neither
